@@ -142,7 +142,8 @@ theorem tail_ok (data : Bytes) (off s typ o2 : Nat) (h2 : o2 ≤ data.length) (h
           match certLoop data true (data.length + 1) 1 (o2 + 8) s with
           | (none, st) => (.inl false, st)
           | (some o, st) => (.inr o, st)
-        else (.inl true, s)) := by
+        else if typ = 3 then (.inl true, s)
+        else (.inr (o2 + 8), s)) := by
   split
   · simp only [EntryOk]; omega
   · rename_i hn
@@ -151,7 +152,9 @@ theorem tail_ok (data : Bytes) (off s typ o2 : Nat) (h2 : o2 ≤ data.length) (h
     · exact tail2_ok data off s (o2 + 8) (by omega) (by omega)
     · split
       · exact chain_ok data _ 1 off (o2 + 8) s (by omega) (by omega)
-      · simp only [EntryOk]; omega
+      · split
+        · simp only [EntryOk]; omega
+        · simp only [EntryOk]; omega
 
 theorem entry_ok (data : Bytes) (off s : Nat) (ho : off ≤ data.length) : EntryOk data off s (entry data true off s) := by
   unfold entry
